@@ -3,7 +3,7 @@
    dev.py enum <name> [quick|thorough]       enumerate one ENUMS configuration, replay on the crate, judge with the monitors
    dev.py grp <group> [quick|thorough] [seed] generate + random for one group (no model check), report drift and violations"""
 import sys, os, json, shutil, collections
-sys.path.insert(0, "/verif")
+sys.path.insert(0, os.path.dirname(os.path.dirname(os.path.abspath(__file__))))
 from vlib import engine, configs, progs
 
 def main():
